@@ -27,7 +27,9 @@ CLAIMED = {
                      "the source per call site (coq/Gen/Facts.v fact_wb_*) and shown necessary by three refuting histories; the identifier "
                      "bit iterator that drives every column walk, with its four decisions regenerated from identifier/iter.rs, returns for "
                      "every registry size and identifier exactly the bits the model reads and never leaves the identifier's allocation "
-                     "(C05_identifier_iterator). PARTIAL, "
+                     "(C05_identifier_iterator); the macro that contains `unsafe` must not lend it to the caller: eleven programs calling an "
+                     "`unsafe fn` in every argument position of every entities! arm must be rejected by rustc with E0133 (finding F17, "
+                     "repaired by /repo 9c6c66f; that no unsafe block of the macro holds a metavariable is a source-derived fact). PARTIAL, "
                      "carried by the correspondence on the real code: an auditing global allocator checks after every operation that "
                      "blocks are released once, with the size/alignment they were created with, and that every block obtained during "
                      "a history is returned once all worlds are dropped (registries with zero-sized, over-aligned, heap-owning, "
@@ -189,14 +191,19 @@ CLAIMED = {
                 text="Round trip proved over the serialized content (de_world (ser_world w) = w up to the type-id cache, "
                      "Inv and == of the result, any accepted content yields a valid world that serializes again); both "
                      "encodings exercised against the real serializer/deserializer on generated histories, result "
-                     "compared field by field with the model and with the original world.",
+                     "compared field by field with the model and with the original world. 'From then on behaves identically': mirror "
+                     "cases give a world, its clone and its round trip the same operations (clear, insert, extend, remove, shrink) "
+                     "and require the same answers (identifiers issued), the same entities and the same free lists after each "
+                     "(finding F6 -- clear freed the identifiers in the order of the address-keyed table -- repaired by /repo 290889e; "
+                     "the model sorts the reported table order on a source-derived fact).",
                 technique="Rocq proof (round-trip + invariant) + differential execution of serde_assert round trips",
                 ref="DESIGN.md §7 C06"),
     "C10": dict(engine="world-histories",
                 text="clone / clone_from proved to reproduce the source's entities, identifiers, allocator state and "
                      "resources whatever the destination held, and to preserve Inv; independence of the two worlds is "
                      "carried by the correspondence (all worlds dumped after every op, pointer-identity ownership of "
-                     "every slot location and lookup target).",
+                     "every slot location and lookup target); a world and its clone given the same operations must keep issuing the "
+                     "same identifiers (mirror cases; finding F6, repaired).",
                 technique="Rocq proof of clone/clone_from content + invariant; differential execution with all-world dumps",
                 ref="DESIGN.md §7 C10"),
     "C13": dict(engine="world-histories",
@@ -208,7 +215,9 @@ CLAIMED = {
                      "the caught panics no history can build; the two orderings are source-derived facts and C13_len_after_interrupted_"
                      "clear/extend are proved on them). At the level of identifiers and rows alone (coq/Model/CloneFromW.v) the "
                      "slot<->row invariant is proved preserved by World::remove, by a push and by a shape change, for every world, "
-                     "whatever Drop panics.",
+                     "whatever Drop panics; Inv of the logical layer implies it (every reachable world), and World::remove of the "
+                     "logical layer -- the operation the extracted model runs against the real library -- is proved to BE that "
+                     "index-level removal (Proofs/IndexBridge.v).",
                 technique="Rocq proof of invariant preservation by induction over histories + model/implementation correspondence",
                 ref="DESIGN.md §7 C13"),
     "C16": dict(engine="world-histories",
